@@ -1,0 +1,7 @@
+//go:build !verif
+
+package pool
+
+func verifAcquire(*Pool, *Message) {}
+
+func verifRelease(*Pool, *Message) {}
